@@ -1,4 +1,5 @@
 import SLE.Model.Json
+import SLE.Model.JsonText
 import SLE.Driver.Util
 /-! Driver for family `json`. -/
 namespace SLE.Driver.JsonD
@@ -11,6 +12,12 @@ def optNat (s : String) : Option (Option Nat) := if s == "?" then some none else
 
 def parseWordTok (t : String) : Option Nat :=
   if t.startsWith "0x" then hexNat? ((t.drop 2).toString) else t.toNat?
+
+/-- a conflict payload word of the request: `[a-z]+` as is, `~<hex>` = the string with these UTF-8 bytes -/
+def payloadWord (t : String) : Option String :=
+  if t.startsWith "~" then
+    (hexBytes? ((t.drop 1).toString)).bind (fun bs => String.fromUTF8? (ByteArray.mk (bs.map (·.toUInt8)).toArray))
+  else some t
 
 /-- fuel-bounded parser of the AbiType text form -/
 def parseAbi : Nat → List String → Option (AbiType × List String)
@@ -55,7 +62,10 @@ def parseAbi : Nat → List String → Option (AbiType × List String)
         (elems (r.length + 1) r []).map (fun (es, r) => (.struct es, r))
       | "conflict" :: body :: ")" :: r =>
         (match body.splitOn "|" with
-         | [c, rs] => some (.conflictedType ((c.splitOn ",").filter (· ≠ "")) ((rs.splitOn ",").filter (· ≠ "")), r)
+         | [c, rs] =>
+           (match (((c.splitOn ",").filter (· ≠ "")).mapM payloadWord), (((rs.splitOn ",").filter (· ≠ "")).mapM payloadWord) with
+            | some c, some rs => some (.conflictedType c rs, r)
+            | _, _ => none)
          | _ => none)
       | _ => none
   | _, [] => none
@@ -89,11 +99,19 @@ def handle (payload impl : String) : String × String :=
       let j := encodeSlot slot
       -- the model's own round trip (must be `some`): reported in the model answer
       let rt := match decodeSlot j with | some _ => 1 | none => 0
-      let model := s!"rt={rt} json=" ++ printJson j
+      -- the text layer is `JsonText.render` (serde_json's compact form with its escaping), the
+      -- function `C20_text_roundtrip` is about
+      let text := String.ofList (SLE.JsonText.render j)
+      let model := s!"rt={rt} same=1 json=" ++ text
+      -- … and the code's own text must parse back to the entry with the proven parser
+      let implText := ((impl.splitOn " json=").getD 1 "")
+      let back := (SLE.JsonText.parseSlot implText.toList).map SLE.JsonText.renderSlot
+      let parsesBack := back == some (SLE.JsonText.renderSlot slot)
       let hex := String.ofList (toHex64 i)
       let verdict :=
         if impl.startsWith "PANIC" then "FAIL panic"
         else if !(impl.startsWith "rt=1 ") then "FAIL round-trip"
+        else if !parsesBack then "FAIL text-does-not-parse-back"
         else if !(((impl.splitOn ("\"index\":\"" ++ hex ++ "\"")).length == 2)) then "FAIL index-text-shape"
         else if hex.length ≠ 66 then "FAIL index-length"
         else "ok"
